@@ -110,7 +110,7 @@ def main(argv):
     tr2 = os.path.join(wd, "stream.ndjson")
     subprocess.run([BIN, "gen", "--family", "impl_streams", "--cfg-index", "0", "--hooks", "1", "--out-traces", tr2, "--out-scn", tr2 + ".scn"],
                    check=True, stderr=subprocess.DEVNULL)
-    cfg2 = PLAN.write_cfg(os.path.join(wd, "stream.cfg"), PLAN.stream_consts(12), spec="TSpec")
+    cfg2 = PLAN.write_cfg(os.path.join(wd, "stream.cfg"), PLAN.stream_consts(12, tasks=2, spurious=True), spec="TSpec")
     lines2 = open(tr2).read().splitlines()
     total2 = sum(1 for l in lines2 if '"ev":"reset"' in l)
     print(f"TraceStream, option set {json.dumps(sc, sort_keys=True)}: {total2} scenarios, {len(lines2)} events")
